@@ -1,7 +1,6 @@
 package config
 
 import (
-	"math/big"
 	"strconv"
 	"strings"
 	"unicode"
@@ -115,13 +114,11 @@ func CClasses(strs ...string) string {
 	return "[" + strings.Join(out, "; ") + "]"
 }
 
-// HashStr: the pair of polynomial hashes of Corr/RunC15.v (hash_str) as one number.
+// HashStr: the polynomial hash (mod 2^64) of Corr/RunC15.v (hash_str).
 func HashStr(s string) string {
-	const p1, p2 = 1000000007, 998244353
-	h1, h2 := uint64(7), uint64(11)
+	h := uint64(1469598103934665603)
 	for _, r := range s {
-		h1 = (h1*257 + uint64(r) + 1) % p1
-		h2 = (h2*1000003 + uint64(r) + 1) % p2
+		h = h*1000003 + uint64(r) + 1
 	}
-	return new(big.Int).Add(new(big.Int).Mul(new(big.Int).SetUint64(h1), big.NewInt(p2)), new(big.Int).SetUint64(h2)).String()
+	return strconv.FormatUint(h, 10)
 }
